@@ -5,6 +5,7 @@ package main
 import (
 	"fmt"
 	"go/token"
+	"sort"
 	"strings"
 
 	"golang.org/x/tools/go/ssa"
@@ -274,6 +275,7 @@ func runC18(c *Ctx) {
 	// stays inside the bucket because an accepted week is a date (no separators, no "..")
 	c12AcceptHeader(c, gd, gd.Func("cmd/telemetrygodev", "validate"), "C18.names-confined")
 	c18WhoCreates(c, gd)
+	c18BucketWiring(c, gd, "C18.names-confined")
 	// ---- names confined ---------------------------------------------------------
 	n := 0
 	for _, fn := range gd.srcFns {
@@ -634,4 +636,74 @@ func c18PrefixLenGuard(f Fact) bool {
 	isLenPrefix := func(d string) bool { return d == "builtin:len(param:prefix)" }
 	isLenName := func(d string) bool { return strings.HasPrefix(d, "builtin:len(") && !isLenPrefix(d) }
 	return (isLenPrefix(dx) && isLenName(dy)) || (isLenPrefix(dy) && isLenName(dx))
+}
+
+// c18BucketWiring: the three services work on three different buckets, and each handle of the API
+// is the bucket of its own name: API.Upload ← cfg.UploadBucket, API.Merge ← cfg.MergedBucket,
+// API.Chart ← cfg.ChartDataBucket; the three configured names are one prefix followed by three
+// different constants. (Handles of one type in a positional literal: the compiler cannot tell them
+// apart. A chart written as <date>.json into the merged bucket replaces that day's reports.)
+func c18BucketWiring(c *Ctx, gd *Module, rule string) {
+	r := c.R
+	api := gd.Func("internal/storage", "NewAPI")
+	want := map[string]string{"Upload": "UploadBucket", "Merge": "MergedBucket", "Chart": "ChartDataBucket"}
+	n := 0
+	for _, ex := range exitPaths(api) {
+		v := strip(refine(ex.vals[0], ex.facts))
+		if k, isC := v.(*ssa.Const); isC && k.IsNil() {
+			continue
+		}
+		lit, ok := structLit(v)
+		if !ok {
+			r.Check(rule, "NewAPI/result is an API literal", gd.Pos(ex.ret.Pos()), false, "got "+shortDesc(describe(v)))
+			continue
+		}
+		for fld, cfgFld := range want {
+			n++
+			d := describe(lit[fld])
+			okF := strings.Contains(d, "storage.NewBucket(") && strings.HasSuffix(d, "param:cfg."+cfgFld+")#0")
+			r.Check(rule, "NewAPI/API."+fld+" is the bucket named by cfg."+cfgFld, gd.Pos(ex.ret.Pos()), okF, "got "+shortDesc(d))
+		}
+	}
+	r.Check(rule, "NewAPI/handles enumerated", gd.Pos(api.Pos()), n == 3, fmt.Sprintf("%d", n))
+	// the configured names are pairwise different
+	nc := gd.Func("internal/config", "NewConfig")
+	names := map[string]string{}
+	for _, ex := range exitPaths(nc) {
+		lit, ok := structLit(strip(ex.vals[0]))
+		if !ok {
+			continue
+		}
+		for _, cfgFld := range want {
+			if v := lit[cfgFld]; v != nil {
+				names[cfgFld] = describe(v)
+			}
+		}
+	}
+	var flds []string
+	for _, f := range want {
+		flds = append(flds, f)
+	}
+	sort.Strings(flds)
+	for i, a := range flds {
+		pa, ka, okA := sepSuffixConst(names[a])
+		r.Check(rule, "NewConfig/"+a+" is the environment followed by a constant", gd.Pos(nc.Pos()), okA, "got "+shortDesc(names[a]))
+		for _, b := range flds[i+1:] {
+			pb, kb, okB := sepSuffixConst(names[b])
+			r.Check(rule, "NewConfig/"+a+" and "+b+" name different buckets", gd.Pos(nc.Pos()), okA && okB && pa == pb && ka != kb,
+				fmt.Sprintf("%s = %s, %s = %s", a, shortDesc(names[a]), b, shortDesc(names[b])))
+		}
+	}
+}
+
+// sepSuffixConst: d is the canonical form (<prefix> + "<const>"); returns prefix and constant.
+func sepSuffixConst(d string) (string, string, bool) {
+	if !strings.HasPrefix(d, "(") || !strings.HasSuffix(d, `")`) {
+		return "", "", false
+	}
+	i := strings.LastIndex(d, ` + "`)
+	if i < 0 {
+		return "", "", false
+	}
+	return d[1:i], d[i+4 : len(d)-2], true
 }
